@@ -87,6 +87,8 @@ class DataclassGenerator:
         context.add_import("typing", "Any")
 
         description = schema.description or "Generic JSON value object that preserves arbitrary data."
+        # The description is placed inside a triple-quoted docstring of the wrapper template
+        description = description.replace("\\", "\\\\").replace('"""', '\\"\\"\\"').replace("\x00", "\\x00")
 
         # Determine value type from additionalProperties
         value_type = "Any"
@@ -376,7 +378,12 @@ converter.register_unstructure_hook({class_name}, _unstructure_{class_name.lower
                     return f"{ps.name}.{enum_member_name}"
 
             if isinstance(ps.default, str):
-                escaped_inner_content = json.dumps(ps.default)[1:-1]
+                # ensure_ascii=False: JSON's \\ud83d\\ude00 surrogate escapes would NOT denote the astral character in Python
+                escaped_inner_content = json.dumps(ps.default, ensure_ascii=False)[1:-1]
+                escaped_inner_content = "".join(
+                    ch if ch.isprintable() else ("\\u%04x" % ord(ch) if ord(ch) < 0x10000 else "\\U%08x" % ord(ch))
+                    for ch in escaped_inner_content
+                )
                 return '"' + escaped_inner_content + '"'
             elif isinstance(ps.default, bool):
                 return str(ps.default)
